@@ -21,6 +21,9 @@ def plans(quick):
          # scaling) starts a new track whatever confidence the track's last detection had
          ("v-lowconf", dict(depth=4, MaxDets=1, Slots={1}, Confs={900, 200}, Feats={1}, Quals={30, 90}), None),
          ("v-cosine", dict(depth=7, Sim=6, VisKind="cosine", VisThr=5), {"num": 20 if quick else 300, "depth": 8}),
+         # similarity thresholds away from 0.5: a vote with similarity s counts iff s >= t, whatever 1 - s is
+         ("v-cosine-low", dict(depth=7, Sim=6, VisKind="cosine", VisThr=7), {"num": 15 if quick else 300, "depth": 8}),
+         ("v-cosine-high", dict(depth=7, Sim=6, VisKind="cosine", VisThr=3), {"num": 15 if quick else 300, "depth": 8}),
          ("v-min-area", dict(depth=7, Sim=6, MinArea=3000), {"num": 20 if quick else 300, "depth": 8}),
          ("v-own", dict(depth=7, Sim=6, OwnUse=50, OwnCollect=50), {"num": 25 if quick else 300, "depth": 8}),
          ("v-own-batch", dict(depth=5, Sim=12, OwnUse=50, OwnCollect=50, Kind="batch", Scenes={1, 2}, Slots={1, 2}, Confs={900, 800},
